@@ -89,6 +89,45 @@ Proof.
   exact (C01.C01_accept_implies_same_e_mod_n pub tbs [] tbs' [] r s Hu Hu Hx Hy Hv Hv').
 Qed.
 
+(* ---------- the user id of the signing path (round 6) ---------------------------------------------------- *)
+(* what an SM2 signer stores in a created object is a signature over the Z value of the DEFAULT user id, whatever
+   key object it is: the model's signer is a function of (key, TBS, random stream) alone *)
+Lemma create_signature_sm2_default_uid : forall fuel pr tbs rho sig rho',
+  create_signature_sm2 fuel pr tbs rho = Ok (sig, rho') ->
+  exists r s, sig = sig_encode r s /\ Sm2Sign fuel pr tbs default_uid rho = Ok (r, s, rho').
+Proof.
+  intros fuel pr tbs rho sig rho' H. unfold create_signature_sm2, Sign in H.
+  change (Sm2Sign fuel pr tbs [] rho) with (Sm2Sign fuel pr tbs default_uid rho) in H.
+  destruct (Sm2Sign fuel pr tbs default_uid rho) as [[[r s] rho1]| | |] eqn:E; try discriminate.
+  cbn [obind] in H. injection H as <- <-. exists r, s. split; reflexivity.
+Qed.
+
+(* a signature computed over the Z value of ANOTHER user id (what a signer with a stale cached Z produces) and
+   stored in an object is accepted by checkSignature only if the two SM3 digests agree modulo n *)
+Lemma other_uid_Z_rejected_lemma : forall pub tbs uid r s,
+  Z.of_nat (length (uid_or_default uid)) < 8192 ->
+  0 <= fst pub < 2 ^ 256 -> 0 <= snd pub < 2 ^ 256 ->
+  Sm2Verify pub tbs uid r s = true ->
+  checkSignature_sm2 pub tbs (sig_encode r s) = true ->
+  e_spec pub (uid_or_default uid) tbs mod sm2_n = e_spec pub default_uid tbs mod sm2_n.
+Proof.
+  intros pub tbs uid r s Hu Hx Hy Hv Hc.
+  pose proof Hv as A. apply C01.C01_Sm2Verify_characterisation in A as (_ & _ & Hr & Hs & _).
+  pose proof sm2_n_lt_2_256.
+  pose proof (sig_encode_length r s ltac:(lia) ltac:(lia)) as Hl.
+  assert (H72 : 72 < 2 ^ 32) by reflexivity.
+  assert (Hb : bytes_ok (sig_encode r s)) by (apply sig_encode_ok; lia).
+  apply (checkSignature_sm2_iff pub tbs _ Hb) in Hc as (r' & s' & E' & Hv').
+  assert (Hrs : r' = r /\ s' = s).
+  { pose proof Hv' as A'. apply C01.C01_Sm2Verify_characterisation in A' as (_ & _ & Hr' & Hs' & _).
+    assert (D1 : sig_decode (sig_encode r s) = Some (r, s)) by (apply C01.C01_der_strict; [exact Hb|lia|lia|split; [reflexivity|lia]]).
+    assert (D2 : sig_decode (sig_encode r s) = Some (r', s')) by (apply C01.C01_der_strict; [exact Hb|lia|lia|split; [exact E'|lia]]).
+    rewrite D1 in D2. injection D2 as <- <-. split; reflexivity. }
+  destruct Hrs as [-> ->].
+  assert (Hd : Z.of_nat (length (uid_or_default [])) < 8192) by (vm_compute; reflexivity).
+  exact (C01.C01_accept_implies_same_e_mod_n pub tbs uid tbs [] r s Hu Hd Hx Hy Hv Hv').
+Qed.
+
 (* ---------- the other key families, by contract ------------------------------------------------------------
    A signature primitive per scheme (crypto/rsa PKCS#1 v1.5 and PSS, crypto/ecdsa; also SM2, for which
    the contract is the theorem above): whatever it produces under a key verifies under the matching
